@@ -30,6 +30,8 @@ def random_instance(rng, cls, small=False):
         base = I.cyc_node_base(rng, wt=wt, exact=exact, max_edges=me - 1) if node else I.cyc_edge_base(rng, wt=wt, exact=exact, max_edges=me)
     else:
         base = I.dag_node_base(rng, wt=wt, exact=exact, max_edges=me) if node else I.dag_edge_base(rng, wt=wt, exact=exact, max_edges=me + 1)
+    if cls in ERR + ["kFlowDecomp", "kFlowDecompCycles"] and rng.random() < 0.12:
+        I.add_zero_elements(rng, base, n=1)
     kw = {}
     meta = {"mode": base["mode"], "planted": len(base["planted"]), "starts": [], "ends": [], "ignore": [], "allow_empty": False}
     if cover:
